@@ -64,12 +64,25 @@ def _index_sketch(ctx: Ctx, rel: str, cname: str, *, query: str | None, rng: str
     c = prog.cls(rel, cname)
     add, mg, hs = c.methods["add"], c.methods["merge"], c.methods["_hash"]
     # (1) index agreement
-    hcalls_add = [unparse(k).replace(" ", "") for k in calls_in(add.node) if path_of(k.func) == "self._hash"]
+    def index_shape(fn):
+        """(iteration ranges, hash calls with the iteration variable abstracted) — loops and comprehensions alike"""
+        its = []
+        for x in walk_scope(fn.node):
+            if isinstance(x, ast.For):
+                its.append((unparse(x.iter).replace(" ", ""), path_of(x.target)))
+            elif isinstance(x, (ast.GeneratorExp, ast.ListComp, ast.SetComp)):
+                for g in x.generators:
+                    its.append((unparse(g.iter).replace(" ", ""), path_of(g.target)))
+        vars_ = {v for _, v in its if v}
+        calls = []
+        for k in calls_in(fn.node):
+            if path_of(k.func) == "self._hash":
+                calls.append("self._hash(" + ",".join("$" if path_of(a) in vars_ else unparse(a).replace(" ", "") for a in k.args) + ")")
+        return [r for r, _ in its], calls
+    loops_a, hcalls_add = index_shape(add)
     if query:
         qf = c.methods[query]
-        hcalls_q = [unparse(k).replace(" ", "") for k in calls_in(qf.node) if path_of(k.func) == "self._hash"]
-        loops_a = [unparse(s.iter).replace(" ", "") for s in walk_stmts(add.node.body) if isinstance(s, ast.For)]
-        loops_q = [unparse(s.iter).replace(" ", "") for s in walk_stmts(qf.node.body) if isinstance(s, ast.For)]
+        loops_q, hcalls_q = index_shape(qf)
         ok = hcalls_add == hcalls_q and len(hcalls_add) == 1 and loops_a == loops_q == [rng]
         ctx.ob("C20-1", "G4", qf, f"{cname}: add and {query} index alike", ok, f"{cname}.add and .{query} walk the same range `{rng}` and compute the cell with the same call ({hcalls_add} / {hcalls_q})")
     # (4) deterministic hashing
@@ -143,7 +156,12 @@ def rule_index_sketches(ctx: Ctx) -> None:
     rets = [(s, {k[:3] for k in cf.facts_at(node_of(cf.cfg, s))}) for s in walk_stmts(ct.node.body) if isinstance(s, ast.Return)]
     neg = [s for s, fs in rets if isinstance(s.value, ast.Constant) and s.value.value is False]
     pos = [s for s, fs in rets if isinstance(s.value, ast.Constant) and s.value.value is True]
-    ok = len(neg) == 1 and len(pos) == 1 and ("falsy", "self._get_bit(bit_idx)", "") in dict(rets)[neg[0]] and pos[0] in ct.node.body
+    allform = [s for s, fs in rets if isinstance(s.value, ast.Call) and path_of(s.value.func) == "all" and len(s.value.args) == 1 and isinstance(s.value.args[0], ast.GeneratorExp)
+               and path_of(getattr(s.value.args[0].elt, "func", None)) == "self._get_bit" and not s.value.args[0].generators[0].ifs]
+    if allform and len(rets) == 1:
+        ok = True
+    else:
+        ok = len(neg) == 1 and len(pos) == 1 and any(f[0] == "falsy" and f[1].startswith("self._get_bit(") for f in dict(rets)[neg[0]]) and pos[0] in ct.node.body
     ctx.ob("C20-2", "G3", ct, neg[0] if neg else None, ok, "BloomFilter.contains answers False only on seeing an unset bit and True only after the whole range (no false negatives)")
     mg = bf.methods["merge"]
     lp = [s for s in mg.node.body if isinstance(s, ast.For)]
@@ -207,7 +225,12 @@ def rule_index_sketches(ctx: Ctx) -> None:
                     if unparse(t).startswith("self._registers"):
                         idx = unparse(t.slice) if isinstance(t, ast.Subscript) else None
                         v = unparse(s.value).replace(" ", "") if isinstance(s, ast.Assign) else ""
-                        if not (idx and v.startswith(f"max(self._registers[{idx}],") and v.endswith(")")):
+                        is_max = bool(idx) and v.startswith("max(") and f"self._registers[{idx}]" in v and v.endswith(")")
+                        guarded = False
+                        if idx and isinstance(s, ast.Assign):
+                            mf_ = ctx.flow(m)
+                            guarded = mf_.holds_at(node_of(mf_.cfg, s), Fact("lt", f"self._registers[{idx}]", unparse(s.value)))
+                        if not (is_max or guarded):
                             ok = False
         return ok
 
@@ -219,7 +242,14 @@ def rule_index_sketches(ctx: Ctx) -> None:
     ctx.ob("C20-1", "G7", a, "register index and rank split the hash", ok, "HyperLogLog.add takes the top `precision` bits as the register and the rank from the remaining bits of the same hash")
     mg = hl.methods["merge"]
     lp = [s for s in mg.node.body if isinstance(s, ast.For)]
-    ok = len(lp) == 1 and unparse(lp[0].iter).replace(" ", "") == "range(self._num_registers)" and [unparse(s).replace(" ", "") for s in lp[0].body] == ["self._registers[i]=max(self._registers[i],other._registers[i])"]
+    ok = len(lp) == 1 and unparse(lp[0].iter).replace(" ", "") == "range(self._num_registers)"
+    if ok:
+        iv = path_of(lp[0].target)
+        ws = [s2 for s2 in walk_stmts(lp[0].body) if isinstance(s2, ast.Assign) and unparse(s2.targets[0]).replace(" ", "") == f"self._registers[{iv}]"]
+        mgf = ctx.flow(mg)
+        ok = len(ws) == 1 and (unparse(ws[0].value).replace(" ", "") in (f"max(self._registers[{iv}],other._registers[{iv}])", f"max(other._registers[{iv}],self._registers[{iv}])")
+                               or (unparse(ws[0].value).replace(" ", "") == f"other._registers[{iv}]" and mgf.holds_at(node_of(mgf.cfg, ws[0]), Fact("lt", f"self._registers[{iv}]", f"other._registers[{iv}]"))))
+        ok = ok and not any(isinstance(x, (ast.Break, ast.Continue, ast.Return)) for x in walk_stmts(lp[0].body))
     ctx.ob("C20-3", "G9", mg, lp[0] if lp else None, ok, "HyperLogLog.merge takes the register-wise maximum over all registers")
     init = hl.methods["__init__"]
     ctx.ob("C20-3", "G7", init, "registers = 2^precision", len(stmts_matching(init, "self._num_registers = 1 << precision")) == 1, "the register count is a function of the precision alone")
@@ -298,9 +328,24 @@ def rule_topk_tdigest(ctx: Ctx) -> None:
         ok = ok and tmn[0] in a.node.body and tmx[0] in a.node.body
     ctx.ob("C20-6", "G6", a, mn[0] if mn else None, ok, "TDigest.add lowers the minimum / raises the maximum with every value outside the current range")
     mg = td.methods["merge"]
-    txt = unparse(mg.node).replace(" ", "")
-    ok = "ifother._min_valueisnotNoneand(self._min_valueisNoneorother._min_value<self._min_value):self._min_value=other._min_value" in txt.replace("\n", "") and \
-        "ifother._max_valueisnotNoneand(self._max_valueisNoneorother._max_value>self._max_value):self._max_value=other._max_value" in txt.replace("\n", "")
+    mgf = ctx.flow(mg)
+    ok = True
+    for attr, cmp_txt in (("_min_value", "other._min_value<self._min_value"), ("_max_value", "other._max_value>self._max_value")):
+        ws = [nd for nd in mgf.cfg.nodes if nd.kind == "stmt" and isinstance(nd.ast, ast.Assign) and path_of(nd.ast.targets[0]) == f"self.{attr}"]
+        if len(ws) != 1 or path_of(ws[0].ast.value) != f"other.{attr}":
+            ok = False
+            continue
+        took = False
+        for p in enumerate_paths(mgf, mgf.cfg.entry, stop=lambda x: x is ws[0]):
+            if p.end == "stop" and p.nodes[-1] is ws[0]:
+                took = True
+                has = p.decided(lambda t: t == f"other.{attr}isnotNone")
+                none = p.decided(lambda t: t == f"self.{attr}isNone")
+                better = p.decided(lambda t: t == cmp_txt)
+                if not (has is True and (none is True or better is True)):
+                    ok = False
+        # and the update is not skipped when it applies: some path with `other` set and self unset / worse reaches the write
+        ok = ok and took
     tot = [s for s in walk_stmts(mg.node.body) if isinstance(s, ast.AugAssign) and path_of(s.target) == "self._total_count" and unparse(s.value) == "other._total_count"]
     ext = [c for c in calls_in(mg.node) if path_of(c.func) == "self._centroids.extend" and [path_of(x) for x in c.args] == ["other._centroids"]]
     fl = [path_of(c.func) for c in calls_in(mg.node) if path_of(c.func) in ("self._flush", "other._flush", "self._compress")]
@@ -359,18 +404,40 @@ def rule_reservoir_merkle(ctx: Ctx) -> None:
     ctx.ob("C20-8", "G1", df, empties[0] if empties else None, ok, "MerkleTree.diff reports no difference only for two empty trees or equal root hashes; otherwise it compares the roots")
     dn = prog.func(MK, "_diff_nodes")
     dnf = ctx.flow(dn)
-    empties = [s for s in walk_stmts(dn.node.body) if isinstance(s, ast.Return) and isinstance(s.value, ast.List) and not s.value.elts]
-    ok = len(empties) == 1 and dnf.holds_at(node_of(dnf.cfg, empties[0]), Fact("eq", "a.hash", "b.hash"))
-    rec = [unparse(c).replace(" ", "") for c in calls_in(dn.node) if path_of(c.func) == "_diff_nodes"]
-    leaf = [s for s in walk_stmts(dn.node.body) if isinstance(s, ast.If) and unparse(s.test).replace(" ", "") == "a.is_leaforb.is_leaf"]
-    okl = len(leaf) == 1 and len(stmts_matching(dn, "start = min(a.key_range.start, b.key_range.start)")) == 1 and len(stmts_matching(dn, "end = max(a.key_range.end, b.key_range.end)")) == 1 \
-        and any(isinstance(s, ast.Return) and unparse(s.value).replace(" ", "") == "[KeyRange(start=start,end=end)]" for s in leaf[0].body)
-    ctx.ob("C20-8", "G1", dn, empties[0] if empties else None, ok and sorted(rec) == ["_diff_nodes(a.left,b.left)", "_diff_nodes(a.right,b.right)"] and okl,
-           "_diff_nodes prunes a pair only on equal hashes, reports the union of both ranges when either side is a leaf, and otherwise descends into both child pairs and keeps both results")
-    ext = [s2 for s2 in dn.node.body if isinstance(s2, ast.Expr) and isinstance(s2.value, ast.Call) and path_of(s2.value.func) == "result.extend"
-           and len(s2.value.args) == 1 and isinstance(s2.value.args[0], ast.Call) and path_of(s2.value.args[0].func) == "_diff_nodes"]
-    ctx.ob("C20-8", "G2", dn, "both child results kept", len(ext) == 2 and isinstance(dn.node.body[-1], ast.Return) and path_of(dn.node.body[-1].value) == "result",
-           "the differences of both child pairs are collected unconditionally and returned")
+    bad = []
+    kinds = {"equal": 0, "leaf": 0, "descend": 0}
+    for p in enumerate_paths(dnf, dnf.cfg.entry):
+        if p.end != "exit":
+            continue
+        rets = [nd.ast for nd in p.nodes if nd.kind == "stmt" and isinstance(nd.ast, ast.Return)]
+        if not rets:
+            bad.append("path without return")
+            continue
+        rv = rets[-1].value
+        same = p.decided(lambda t: t == "a.hash==b.hash")
+        la, lb = p.decided(lambda t: t == "a.is_leaf"), p.decided(lambda t: t == "b.is_leaf")
+        rec = sorted(unparse(c).replace(" ", "") for nd in p.nodes for e in __import__("hsverif.cfg", fromlist=["own_exprs"]).own_exprs(nd) for c in walk_scope(e) if isinstance(c, ast.Call) and path_of(c.func) == "_diff_nodes")
+        if isinstance(rv, ast.List) and not rv.elts:
+            kinds["equal"] += 1
+            if same is not True:
+                bad.append(f"[{p.describe()[:80]}] reports no difference without equal hashes")
+        elif isinstance(rv, ast.List) and len(rv.elts) == 1 and unparse(rv.elts[0]).replace(" ", "") == "KeyRange(start=start,end=end)":
+            kinds["leaf"] += 1
+            if same is not False or not (la is True or lb is True):
+                bad.append(f"[{p.describe()[:80]}] union range returned although neither node is a leaf / hashes equal")
+        elif path_of(rv) is not None:
+            kinds["descend"] += 1
+            if same is not False or la is not False or lb is not False or rec != ["_diff_nodes(a.left,b.left)", "_diff_nodes(a.right,b.right)"]:
+                bad.append(f"[{p.describe()[:80]}] descent does not compare both child pairs ({rec})")
+            ext = [nd for nd in p.nodes if nd.kind == "stmt" and isinstance(nd.ast, ast.Expr) and isinstance(nd.ast.value, ast.Call) and path_of(nd.ast.value.func) == f"{path_of(rv)}.extend"]
+            if len(ext) != 2:
+                bad.append("not both child results are kept")
+        else:
+            bad.append(f"unrecognised return `{unparse(rv)}`")
+    okl = len(stmts_matching(dn, "start = min(a.key_range.start, b.key_range.start)")) == 1 and len(stmts_matching(dn, "end = max(a.key_range.end, b.key_range.end)")) == 1
+    ctx.ob("C20-8", "G1", dn, "prune / leaf / descend", not bad and all(kinds.values()) and okl,
+           f"_diff_nodes prunes a pair only on equal hashes, reports the union of both ranges when either side is a leaf, and otherwise descends into both child pairs and keeps both results ({kinds})" + ("" if not bad else " — " + bad[0]))
+    ctx.ob("C20-8", "G2", dn, "both child results kept", not any("kept" in b or "both child" in b for b in bad), "the differences of both child pairs are collected unconditionally and returned")
     hl = prog.func(MK, "_hash_leaf")
     txt = unparse(hl.node)
     ctx.ob("C20-8", "G7", hl, "leaf hash covers key and value", "{key}" in txt and "{value!r}" in txt and "hashlib.sha256" in txt, "a leaf's hash depends on the key and on the value (a changed value changes the hash)")
